@@ -417,6 +417,14 @@ func main() {
 		h.model = m
 		defer m.Close()
 	}
+	if settle, err := engine.DetectSettle(); err != nil {
+		fmt.Fprintln(os.Stderr, "cannot probe the serial executor:", err)
+		os.Exit(2)
+	} else if settle {
+		run.Note("serial executor under test: repaired (settleSerialPromises; F-11a fixed) — model asked for mutation-settle")
+	} else {
+		run.Note("serial executor under test: unrepaired (F-11a open) — model asked for mutation")
+	}
 	run.SetRule("executor level: (request shape, resolver outcomes, async subset, schedule) through graphql.Execute; distinct = distinct case; non-trivial = at least two promises and (at least two idle rounds or at least one error). Combinator level: (future term, fulfil/poll script) through the verif hook; non-trivial = a callback-carrying combinator over a not-ready child that later completes")
 
 	if run.Replay != "" {
